@@ -6,3 +6,5 @@ import L21.Props.C17
 #print axioms L21.Dep.c17_total
 #print axioms L21.Dep.c17_acyclic_ok
 #print axioms L21.Dep.c17_listing
+#print axioms L21.Dep.c17_error_cycle_reachable
+#print axioms L21.Dep.c17_error_iff
